@@ -97,6 +97,19 @@ class ChannelHook:
 
     def on_call(self, eng, qual=None, args=None, kwargs=None, node=None, frame=None):
         name = qual.split(".")[-1]
+        if name == "close" and args and isinstance(eng.force(args[0]), VObj):
+            pend = dict(eng.state.ghost.get("removed_unclosed", {}))
+            pend.pop(eng.force(args[0]).oid, None)
+            eng.state.ghost["removed_unclosed"] = pend
+        me0 = getattr(eng, "self_under_verification", None)
+        if (name == "append" and qual.startswith("buffers.") and args and isinstance(eng.force(args[0]), VObj) and me0 is not None and me0.cls == CH
+                and eng.cur_func.split("@")[0].endswith("send_continue")):
+            # C19: the interim response goes BEHIND everything already queued, i.e. into the last output buffer
+            ob = eng.state.heap.get((me0.oid, "outbufs"))
+            if isinstance(ob, VList):
+                last = eng.force(eng.list_index(ob, VInt(z3.IntVal(-1)), node))
+                eng.oblige("%s/C19-interim-response-is-queued-behind-all-pending-output" % eng.cur_func, eng.identical(eng.force(args[0]), last),
+                           clause="the buffer send_continue() appends to is self.outbufs[-1]", kind="assert")
         if name == "received" and qual.split(".")[0] == "channel":
             eng.state.ghost["received_called"] = True
         if eng.role == "W" and name in self.TEARDOWN and qual.split(".")[0] in ("channel", "wasyncore"):
@@ -118,9 +131,25 @@ class ChannelHook:
             eng.state.ghost["popped_request"] = True
             if eng.role == "W":
                 eng.state.ghost["pulled"] = False       # R5: the queue changed after the last wake-up
+        ob = eng.state.heap.get((me.oid, "outbufs"))
+        if isinstance(ob, VList) and ob.lid == lst.lid:
+            # C09: a buffer taken off the output queue (it may wrap the application's file) must be closed by whoever removed it
+            v = eng.force(value)
+            pend = dict(eng.state.ghost.get("removed_unclosed", {}))
+            pend[getattr(v, "oid", id(v))] = True
+            eng.state.ghost["removed_unclosed"] = pend
 
     def on_attr_write(self, eng, obj=None, field=None, val=None, node=None):
         me = getattr(eng, "self_under_verification", None)
+        if (me is not None and isinstance(obj, VObj) and obj.oid == me.oid and field == "will_close" and eng.cur_func.split("@")[0].endswith(".handle_write")
+                and node is not None):
+            fn = eng.repo.find(eng.cur_qual)
+            if fn is not None and fn.lineno <= getattr(node, "lineno", 0) <= fn.end_lineno:
+                # C03: in handle_write's own body the only way to decide "close now" is the promotion of close_when_flushed, and that
+                # may happen only once the whole backlog has been sent (a socket error goes through _flush_exception, not through here)
+                tot = eng.force(eng.state.heap[(me.oid, "total_outbufs_len")])
+                eng.oblige("%s/C03-close-when-flushed-is-promoted-only-with-an-empty-backlog" % eng.cur_func, tot.t == 0,
+                           clause="self.will_close = True in handle_write() only with self.total_outbufs_len == 0", kind="assert")
         if me is not None and isinstance(obj, VObj) and obj.oid == me.oid and eng.role == "W" and field in ("close_when_flushed", "will_close", "requests"):
             eng.state.ghost["pulled"] = False           # R5: a close decision / queue change must be followed by a wake-up
 
@@ -248,16 +277,20 @@ def install(reg):
         ensures=[("total-never-grows", "self.total_outbufs_len <= old(self.total_outbufs_len)"),
                  ("returns-whether-sent", "implies(not result, self.total_outbufs_len == old(self.total_outbufs_len) or not self.connected)"),
                  ("connected-only-cleared", "implies(self.connected, old(self.connected))"),
-                 ("no-teardown-without-do_close", "implies(not do_close, self.connected == old(self.connected))")],
+                 ("no-teardown-without-do_close", "implies(not do_close, self.connected == old(self.connected))"),
+                 ("C09-every-buffer-taken-off-the-queue-is-closed", "removed_unclosed() == 0")],
         ensures_exc=[("total-never-grows", "self.total_outbufs_len <= old(self.total_outbufs_len)"),
+                     ("C09-every-buffer-taken-off-the-queue-is-closed", "removed_unclosed() == 0"),
                      ("no-teardown-without-do_close", "implies(not do_close, self.connected == old(self.connected))")],
         loops={0: LoopSpec(invariants=[("total-never-grows", "self.total_outbufs_len <= old(self.total_outbufs_len)"), 
+                                       ("C09-every-buffer-taken-off-the-queue-is-closed", "removed_unclosed() == 0"),
                                        ("outbufs", "len(self.outbufs) >= 1"), ("sent-nonneg", "sent >= 0"),
                                        ("sent-means-shrunk-or-closed", "implies(sent == 0, self.total_outbufs_len == old(self.total_outbufs_len) or not self.connected)"),
                                        ("connected-only-cleared", "implies(self.connected, old(self.connected))"),
                                        ("no-teardown-without-do_close", "implies(not do_close, self.connected == old(self.connected))")],
                            modifies=["self.total_outbufs_len", "self.connected", "self.last_activity"]),
                1: LoopSpec(invariants=[("total-never-grows", "self.total_outbufs_len <= old(self.total_outbufs_len)"), 
+                                       ("C09-every-buffer-taken-off-the-queue-is-closed", "removed_unclosed() == 0"),
                                        ("outbufs", "len(self.outbufs) >= 1"), ("sent-nonneg", "sent >= 0"),
                                        ("sent-means-shrunk-or-closed", "implies(sent == 0, self.total_outbufs_len == old(self.total_outbufs_len) or not self.connected)"),
                                        ("connected-only-cleared", "implies(self.connected, old(self.connected))"),
@@ -281,7 +314,8 @@ def install(reg):
     reg.add(FuncContract(CH + "._flush_outbufs_below_high_watermark", raises=[], setup=alias,
         requires=[("worker", "role_is('W')")],
         ensures=[("C12-below-mark-or-disconnected", "self.total_outbufs_len <= self.adj.outbuf_high_watermark or not self.connected")],
-        entry_holds={"W": ["outbuf_lock"]},
+        # entered with outbuf_lock held from write_soon() but WITHOUT it from service(): verified for the weaker entry state (not held);
+        # the function takes the (re-entrant) lock itself before it touches the output state
         loops={0: LoopSpec(invariants=OUT_INV, modifies=["self.total_outbufs_len", "self.connected", "self.outbufs", "self.current_outbuf_count"])},
         modifies=["self.total_outbufs_len", "self.connected", "self.last_activity", "self.outbufs", "self.will_close"]))
 
@@ -331,6 +365,7 @@ def install_service(reg):
         ensures_exc=[("channel-keeps-an-outbuf", "len(self.channel.outbufs) >= 1")]))
     reg.spec_funcs["popped"] = ghost_flag("popped_request")
     reg.spec_funcs["received_called"] = ghost_flag("received_called")
+    reg.spec_funcs["removed_unclosed"] = lambda eng: VInt(len(eng.state.ghost.get("removed_unclosed", {})))
     reg.add(FuncContract(CH + ".service", raises=[], setup=alias,
         requires=[("worker", "role_is('W')"), ("owns-connection", "len(self.requests) >= 1")],
         rely=[("token-stable-until-this-worker-pops", "len(self.requests) >= 1 or popped()")],
